@@ -75,7 +75,7 @@ def sort_key_fn(name):
         return lambda rg: -rg.num_rows
     if name == 'const':
         # every row group ties: a stable sort leaves the order alone
-        return lambda rg: 0
+        return lambda rg: 'k'
     return None
 
 
@@ -273,6 +273,7 @@ def _execute(case, fs, ds, res, cnt, probes, bump, violation, parts, pkinds):
     trail = []
     kinds_done = set()
     collisions = 0
+    writer_pf = None
     h = hashlib.blake2b(digest_size=8)
 
     with F.Knobs(case['knobs']), F.Poison():
@@ -341,6 +342,7 @@ def _execute(case, fs, ds, res, cnt, probes, bump, violation, parts, pkinds):
                     kw = D.w_opts(op)
                     if op['sort_pnames']:
                         collisions += _collisions(pf)
+                    writer_pf = pf
                     pf.write_row_groups(
                         df, kw.get('row_group_offsets'),
                         sort_key=sort_key_fn(op.get('sort_key')),
@@ -378,8 +380,21 @@ def _execute(case, fs, ds, res, cnt, probes, bump, violation, parts, pkinds):
                         break
                     if op['sort_pnames']:
                         collisions += _collisions(pf)
-                    src = D.open_pf(ds, fs) if op.get('foreign') else pf
+                    src = pf
+                    if op.get('foreign'):
+                        # descriptors held by the handle that wrote row
+                        # groups earlier in this history (in-memory ones,
+                        # possibly outdated by now), else by a second fresh
+                        # handle
+                        src = writer_pf or D.open_pf(ds, fs)
+                        idxs = [i for i in idxs if i < len(src.row_groups)]
+                        if not idxs:
+                            continue
                     target = [src.row_groups[i] for i in idxs]
+                    if op.get('foreign'):
+                        # what they denote in the dataset as it is now
+                        idxs = [j for j, rg in enumerate(pf.row_groups)
+                                if any(rg == t for t in target)]
                     try:
                         pf.remove_row_groups(
                             target[0] if op['how'] == 'single' else target,
